@@ -301,7 +301,7 @@ type Batch struct {
 // largeEvery: one batch in this many is a large one (32 goroutines, 10-25 rounds over long sources). A
 // large batch costs about 16 core-seconds; the thorough tier runs 12 shards of 4000 batches at once,
 // so it draws them more rarely (about 200 in all) to stay within its time budget.
-var largeEvery = 30
+var largeEvery = 12
 
 // mix64 spreads rapid's draws (which favour small numbers) over the whole range.
 func mix64(u uint64) uint64 {
